@@ -207,6 +207,13 @@ let lk_layout (c : case) : LkcdSpec.lk_layout =
 
 let lk_fuel = nat_of_int 100000
 
+(* ---- s390: image file as for diskdump, every page present ---- *)
+let s3_layout (c : case) : S390Spec.s3_layout =
+  { S390Spec.s3l_page_size = lkn c "pgsz"; s3l_arch64 = lkb c "a64"; s3l_hdr_size = lkn c "hdrsz";
+    s3l_tod = lkn c "tod"; s3l_end_tod = lkn c "endtod"; s3l_version = lkn c "ver"; s3l_cpu_id = lkn c "cpuid" }
+let s3_pages (c : case) : coq_N list list =
+  Stdlib.List.filter_map (function Some p -> Some p.content | None -> None) (snd (read_image c.img))
+
 let shift_of (pgsz : coq_N) : coq_N =
   let rec go k = if (1 lsl k) >= int_of_n pgsz then k else go (k + 1) in n_of_int (go 0)
 
@@ -259,6 +266,14 @@ let model_case (line : string) : string =
                    Printf.sprintf "R%s:%x:%x" (status_str s) (Stdlib.List.length data) (fnv1a data)
                | _ -> "?"
              end else "?") c.reqs))
+  | "s390" ->
+      (match S390Model.s3_open rd (nat_of_int (Array.length files)) with
+       | Codec.Err st -> "OPEN" ^ status_str st
+       | Codec.Ok st ->
+           let r = { geom = geom_str "s390dump" true st.S390Model.s3_ptr_size st.s3_page_size st.s3_max_pfn;
+                     read = (fun _ a addr len ->
+                       if a <> 'M' then (n_of_int 99, []) else S390Model.s3_read rd st addr len) } in
+           run_reqs r c.reqs)
   | "sadump" ->
       (match SadumpModel.sd_open rd (nat_of_int (Array.length files)) with
        | Codec.Err st -> "OPEN" ^ status_str st
@@ -294,6 +309,9 @@ let enc_case (line : string) : string =
       let stream = Stdlib.List.map (fun r ->
         { LkcdSpec.lp_pfn = r.lpfn; lp_flags = n_of_int r.lflags; lp_payload = r.lpayload }) recs in
       let out = LkcdSpec.encode_lkcd (lk_layout c) stream in
+      Printf.sprintf "ok %d" (write_file (Stdlib.List.hd c.paths) out)
+  | "s390" ->
+      let out = S390Spec.encode_s390 (s3_layout c) (s3_pages c) in
       Printf.sprintf "ok %d" (write_file (Stdlib.List.hd c.paths) out)
   | "sadump" ->
       let outs = SadumpSpec.encode_sadump (sd_layout c) (sd_image c) in
@@ -336,6 +354,16 @@ let spec_case (line : string) : string =
                 read = (fun z a addr len ->
                   if a <> 'M' then (n_of_int 99, [])
                   else let ((st, data), ()) = Codec.read_range (getp z) pg () addr len in (st, data)) } in
+      run_reqs r c.reqs
+  | "s390" ->
+      let l = s3_layout c and pages = s3_pages c in
+      let pg = l.S390Spec.s3l_page_size in
+      let getp () addr = (S390Spec.spec_s390_page pages (fst (BinNat.N.div_eucl addr pg)), ()) in
+      let r = { geom = geom_str "s390dump" true (n_of_int (if l.s3l_arch64 then 8 else 4)) pg
+                         (n_of_int (Stdlib.List.length pages));
+                read = (fun _ a addr len ->
+                  if a <> 'M' then (n_of_int 99, [])
+                  else let ((st, data), ()) = Codec.read_range getp pg () addr len in (st, data)) } in
       run_reqs r c.reqs
   | "sadump" ->
       let l = sd_layout c and simg = sd_image c in
